@@ -582,6 +582,72 @@ def n9_match_guard(src, log):
         log.append(f"N9 match guard `if {' '.join(guard.split())}` -> if/else inside the arm (fallback arm `_ => {' '.join(other.split())[:30]}`)")
 
 
+def n9g_match_guard_general(src, log):
+    """match E { P if G => A, REST }
+         ->  { let __vx_mK = E; match __vx_mK { P => if G { A } else { match __vx_mK { REST } }, REST } }
+    (first arm guarded, any number of following arms).  The scrutinee is evaluated once into a
+    temporary; matching it twice needs a Copy scrutinee (otherwise rustc rejects the text: undecided)."""
+    k = 0
+    while True:
+        toks = lex(src)
+        hit = None
+        for i, t in enumerate(toks):
+            if not (t.text == "match" and t.kind == "ident"):
+                continue
+            j = i + 1
+            while j < len(toks) and not (toks[j].text == "{" and toks[j].depth == t.depth):
+                if toks[j].kind == "open":
+                    j = toks[j].mate
+                j += 1
+            if j >= len(toks):
+                continue
+            bo, bc = j, toks[j].mate
+            d = toks[bo].depth + 1
+            a = bo + 1
+            g = None
+            while a < bc and not (toks[a].text == "=>" and toks[a].depth == d):
+                if toks[a].text == "if" and toks[a].kind == "ident" and toks[a].depth == d:
+                    g = a
+                if toks[a].kind == "open":
+                    a = toks[a].mate
+                a += 1
+            if g is None or a >= bc:
+                continue
+            arrow = a
+            # end of first arm body
+            if toks[arrow + 1].text == "{":
+                e = toks[arrow + 1].mate
+                body = src[toks[arrow + 1].start:toks[e].end]
+                nxt = e + 1
+                if toks[nxt].text == ",":
+                    nxt += 1
+            else:
+                e = arrow + 1
+                while e < bc and not (toks[e].text == "," and toks[e].depth == d):
+                    if toks[e].kind == "open":
+                        e = toks[e].mate
+                    e += 1
+                body = "{ " + src[toks[arrow + 1].start:toks[e - 1].end] + " }"
+                nxt = e + 1
+            if nxt >= bc:
+                raise Unsupported("guarded match arm without following arms")
+            hit = (i, bo, bc, g, arrow, nxt, body)
+            break
+        if hit is None:
+            return src
+        i, bo, bc, g, arrow, nxt, body = hit
+        scrut = src[toks[i + 1].start:toks[bo - 1].end]
+        pat = src[toks[bo + 1].start:toks[g - 1].end]
+        guard = src[toks[g + 1].start:toks[arrow - 1].end]
+        rest = src[toks[nxt].start:toks[bc - 1].end]
+        tmp = f"__vx_m{k}"
+        rep = (f"{{ let {tmp} = {scrut}; match {tmp} {{ {pat} => if {guard} {body} else {{ match {tmp} {{ {rest} }} }}, "
+               f"{rest} }} }}")
+        src = src[:toks[i].start] + rep + src[toks[bc].end:]
+        log.append(f"N9 guarded first arm `{' '.join(pat.split())} if {' '.join(guard.split())}` -> if/else with the remaining arms re-matched on a temporary")
+        k += 1
+
+
 def n11_ref_patterns(src, log):
     """if let Some(&x) = E { B }  ->  if let Some(__vx_refK) = E { let x = *__vx_refK; B }
     (reference pattern on a Copy value = explicit dereference)"""
@@ -658,6 +724,132 @@ def n12_is_none_or(src, log):
         log.append(f"N12 E.is_none_or(|{x}| ..) -> match E {{ None => true, Some({x}) => .. }}")
 
 
+def parse_emit_node_def(def_src):
+    """`fn emit_node<F>(&mut self, kind: SyntaxKind, f: F) where F: FnOnce(&mut Self) { PRE f(self); POST }`
+    -> (kind_param, f_param, PRE, POST) with PRE/POST the statement texts around the single call `f(self);`"""
+    toks = lex(def_src)
+    fi = next((i for i, t in enumerate(toks) if t.text == "fn" and t.depth == 0), None)
+    if fi is None or toks[fi + 1].text != "emit_node":
+        raise Unsupported("emit_node definition not found")
+    po = next(i for i in range(fi, len(toks)) if toks[i].text == "(" and toks[i].depth == 0)
+    params = _split_args(def_src, toks, po)
+    if len(params) != 3 or "".join(params[0].split()) != "&mutself":
+        raise Unsupported(f"emit_node has unexpected parameters {params}")
+    kind_p = params[1].split(":")[0].strip()
+    f_p = params[2].split(":")[0].strip()
+    if "FnOnce(&mutSelf)" not in "".join(def_src.split()):
+        raise Unsupported("emit_node closure type is not FnOnce(&mut Self)")
+    bo = next(i for i in range(po, len(toks)) if toks[i].text == "{" and toks[i].depth == 0)
+    bc = toks[bo].mate
+    calls = [i for i in range(bo + 1, bc) if toks[i].kind == "ident" and toks[i].text == f_p]
+    if len(calls) != 1:
+        raise Unsupported("emit_node must call its closure exactly once")
+    c = calls[0]
+    if not (toks[c].depth == 1 and toks[c + 1].text == "(" and toks[c + 2].text == "self" and toks[c + 3].text == ")"
+            and toks[c + 4].text == ";" and toks[c - 1].text in ("{", ";", "}")):
+        raise Unsupported("emit_node must call its closure as the statement `f(self);`")
+    pre = def_src[toks[bo].end:toks[c].start]
+    post = def_src[toks[c + 4].end:toks[bc].start]
+    for part in (pre, post):
+        if any(t.text == "return" for t in lex(part)):
+            raise Unsupported("`return` inside emit_node")
+    return kind_p, f_p, pre, post
+
+
+def _subst_idents(text, mapping):
+    toks = lex(text)
+    out = text
+    for t in sorted(toks, key=lambda t: -t.start):
+        if t.kind == "ident" and t.text in mapping:
+            out = out[:t.start] + mapping[t.text] + out[t.end:]
+    return out
+
+
+def n13_inline_emit_node(src, log, emit_def=None):
+    """RECV.emit_node(KIND, |P| { BODY })
+         ->  { PRE[self := RECV, kind := KIND] { BODY[P := RECV] } POST[self := RECV, kind := KIND] }
+    where `fn emit_node(&mut self, kind, f) { PRE f(self); POST }` is the definition cut from the repository on
+    this run (today PRE = `self.builder.start_node(kind);`, POST = `self.builder.finish_node();`), i.e. the call is
+    replaced by the callee's body with the `FnOnce(&mut Self)` argument beta-reduced: the closure parameter is an alias of the
+    receiver for the duration of the call, so it is renamed to the receiver.  A `return;` inside the
+    closure body (leaving the closure only) becomes `break` out of a once-through labelled loop:
+         'vx_nK: loop { { BODY' } break 'vx_nK; }
+    Closures over `&mut Self` are outside Verus; this rule is what brings the parse_* methods in reach."""
+    if emit_def is None:
+        raise Unsupported("N13 needs the definition of NodeBuilder::emit_node (directive `//@ n13_def`)")
+    kind_p, f_p, pre_def, post_def = parse_emit_node_def(emit_def)
+    k = 0
+    while True:
+        toks = lex(src)
+        hit = None
+        for i, t in enumerate(toks):
+            if t.kind == "ident" and t.text == "emit_node" and i >= 2 and toks[i - 1].text == "." \
+                    and toks[i - 2].kind == "ident" and i + 1 < len(toks) and toks[i + 1].text == "(":
+                if i >= 3 and toks[i - 3].text in (".", "::"):
+                    raise Unsupported("emit_node receiver is not a plain identifier")
+                hit = i
+                break
+        if hit is None:
+            return src
+        i = hit
+        recv = toks[i - 2].text
+        o = i + 1
+        c = toks[o].mate
+        d = toks[o].depth + 1
+        # first argument up to the top-level comma
+        j = o + 1
+        while j < c and not (toks[j].text == "," and toks[j].depth == d):
+            if toks[j].kind == "open":
+                j = toks[j].mate
+            j += 1
+        if j >= c:
+            raise Unsupported("emit_node call without a closure argument")
+        kind = src[toks[o + 1].start:toks[j - 1].end]
+        # closure: | P | { BODY } [,]
+        b0 = j + 1
+        if not (toks[b0].text == "|" and toks[b0 + 1].kind == "ident" and toks[b0 + 2].text == "|"
+                and toks[b0 + 3].text == "{"):
+            raise Unsupported("emit_node argument is not `|ident| { .. }`")
+        param = toks[b0 + 1].text
+        bo = b0 + 3
+        bc = toks[bo].mate
+        rest = [x for x in range(bc + 1, c) if toks[x].text != ","]
+        if rest:
+            raise Unsupported("emit_node call has extra arguments")
+        # nested closures (other than emit_node arguments, which are inlined later) own their `return`s
+        inner = [(cl[2], cl[3]) for cl in find_closures(src, toks) if bo < cl[0] < bc]
+        def in_inner(x):
+            return any(a <= x <= b for a, b in inner)
+        edits = []
+        has_ret = False
+        label = f"'vx_n{k}"
+        for x in range(bo + 1, bc):
+            tx = toks[x]
+            if tx.kind == "ident" and tx.text == param and param != recv:
+                if toks[x - 1].text == "|" and toks[x + 1].text == "|":
+                    pass  # parameter of a nested closure with the same name: renamed too (it is inlined next)
+                edits.append((tx.start, tx.end, recv))
+            elif tx.kind == "ident" and tx.text == "return" and not in_inner(x):
+                if toks[x + 1].text not in (";", ",", "}"):
+                    raise Unsupported("`return <value>` inside an emit_node closure")
+                edits.append((tx.start, tx.end, f"break {label}"))
+                has_ret = True
+        body = src[toks[bo].start:toks[bc].end]
+        base = toks[bo].start
+        for s0, e0, r0 in sorted(edits, key=lambda e: -e[0]):
+            body = body[:s0 - base] + r0 + body[e0 - base:]
+        if has_ret:
+            inner_txt = f"/*VX-N13-LOOP*/ {label}: loop {{ {body} break {label}; }}"
+        else:
+            inner_txt = body
+        m = {"self": recv, kind_p: f"({kind})"}
+        rep = f"{{ {_subst_idents(pre_def, m)} {inner_txt} {_subst_idents(post_def, m)} }}"
+        src = src[:toks[i - 2].start] + rep + src[toks[c].end:]
+        log.append(f"N13 {recv}.emit_node({' '.join(kind.split())}, |{param}| ..) inlined"
+                   + (" (closure `return` -> labelled break)" if has_ret else ""))
+        k += 1
+
+
 def nvis(src, log):
     """pub(crate) / pub(super) / pub(in ..)  ->  pub   (a single-file unit has one crate and one module;
     widening visibility cannot change behaviour)"""
@@ -677,7 +869,28 @@ def nvis(src, log):
 DEFAULT_RULES = ("n5", "nvis", "n4", "n2", "n1")
 
 
-def normalise(src, rules, log):
+def nowrap_assign(src, log, lhs):
+    """`LHS += E;` -> `LHS = vx_add_nowrap(LHS, E);` for the one named place (ASSUMED: this counter never wraps)"""
+    lt = [t.text for t in lex(lhs)]
+    toks = lex(src)
+    edits = []
+    for i in range(len(toks) - len(lt) - 1):
+        if [t.text for t in toks[i:i + len(lt)]] == lt and toks[i + len(lt)].text == "+=" \
+                and (i == 0 or toks[i - 1].text in ("{", "}", ";")):
+            d = toks[i].depth
+            e = i + len(lt) + 1
+            while e < len(toks) and not (toks[e].text == ";" and toks[e].depth == d):
+                if toks[e].kind == "open":
+                    e = toks[e].mate
+                e += 1
+            expr = src[toks[i + len(lt) + 1].start:toks[e - 1].end]
+            edits.append((toks[i].start, toks[e].end, f"{lhs} = vx_add_nowrap({lhs}, {expr});"))
+            log.append(f"nowrap: `{lhs} += {expr};` -> vx_add_nowrap (ASSUMED not to wrap)")
+    return _apply(src, edits)
+
+
+def normalise(src, rules, log, ctx=None):
+    ctx = ctx or {}
     for r in rules:
         if r == "n5":
             src = n5_derives(src, log)
@@ -687,6 +900,12 @@ def normalise(src, rules, log):
             src = n11_ref_patterns(src, log)
         elif r == "n9":
             src = n9_match_guard(src, log)
+        elif r == "n9g":
+            src = n9g_match_guard_general(src, log)
+        elif r == "n13":
+            src = n13_inline_emit_node(src, log, ctx.get("n13_def"))
+        elif r.startswith("nowrap:"):
+            src = nowrap_assign(src, log, r.split(":", 1)[1])
         elif r == "nvis":
             src = nvis(src, log)
         elif r == "n4":
